@@ -106,6 +106,7 @@ theorem ty_not {e : Expr} {t : Ty} (h : ty (.not e) = some t) : (∃ te, ty e = 
 def Val.hasTy : Val → Ty → Prop
   | .nodes _, .path => True
   | .num _, .num => True
+  | .dec _ _, .dec => True
   | .bool _, .bool => True
   | _, _ => False
 
@@ -156,6 +157,7 @@ theorem sem_typed : ∀ (e : Expr) (t : Ty) (f : Focus), ty e = some t → (sem 
   | parentAbbr => intro t f h; simp only [ty, Option.some.injEq] at h; subst h; simp [sem, Val.hasTy]
   | rootOnly => intro t f h; simp only [ty, Option.some.injEq] at h; subst h; simp [sem, Val.hasTy]
   | num k => intro t f h; simp only [ty, Option.some.injEq] at h; subst h; simp [sem, Val.hasTy]
+  | lit ng k => intro t f h; simp only [ty, Option.some.injEq] at h; subst h; simp [sem, Val.hasTy]
   | position => intro t f h; simp only [ty, Option.some.injEq] at h; subst h; simp [sem, Val.hasTy]
   | last => intro t f h; simp only [ty, Option.some.injEq] at h; subst h; simp [sem, Val.hasTy]
   | paren e ih => intro t f h; simp only [ty] at h; simpa [sem] using ih t f h
@@ -248,6 +250,7 @@ theorem sem_irrel : ∀ (e : Expr) (f f' : Focus), ty e = some .path → f.item 
   | parentAbbr => intro f f' _ hi; simp only [sem, hi]
   | rootOnly => intro f f' _ _; rfl
   | num k => intro f f' h; simp [ty] at h
+  | lit ng k => intro f f' h; simp [ty] at h
   | position => intro f f' h; simp [ty] at h
   | last => intro f f' h; simp [ty] at h
   | paren e ih => intro f f' h hi; simp only [ty] at h; simp only [sem]; exact ih f f' h hi
@@ -337,6 +340,7 @@ theorem sem_good : ∀ (e : Expr) (f : Focus) (l : List Nat), f.item < a.length 
     · exact ⟨by simp, by simp; omega⟩
     · exact ⟨by simp, by simp⟩
   | num k => intro f l _ h; simp [sem] at h
+  | lit ng k => intro f l _ h; simp [sem] at h
   | position => intro f l _ h; simp [sem] at h
   | last => intro f l _ h; simp [sem] at h
   | paren e ih => intro f l hf h; simp only [sem] at h; exact ih f l hf h
@@ -449,7 +453,7 @@ theorem flip_focusFwd {l : List Nat} (h : l.Nodup) : (focusFwd l).map flipPos = 
 theorem swfRev_innerStep : ∀ (e : Expr), swfRev (innerStep e) = predAxisReverse e
   | .pred e _ => by simp only [innerStep, predAxisReverse]; exact swfRev_innerStep e
   | .step ax t ab => rfl
-  | .ctxItem | .parentAbbr | .rootOnly | .num _ | .position | .last => rfl
+  | .ctxItem | .parentAbbr | .rootOnly | .num _ | .lit _ _ | .position | .last => rfl
   | .slash _ _ | .dslash _ _ | .root _ | .droot _ | .paren _ | .union _ _ | .count _ => rfl
   | .cmp _ _ _ | .and _ _ | .or _ _ | .not _ => rfl
 
@@ -481,7 +485,7 @@ theorem predFocus_eq (e : Expr) {l : List Nat} (h : l.Nodup) :
     · rw [if_neg hr]
       have : predAxisReverse e' = false := by simpa using hr
       rw [this]; exact focusFwd_eq h
-  | ctxItem | parentAbbr | rootOnly | num _ | position | last | slash _ _ | dslash _ _ | root _
+  | ctxItem | parentAbbr | rootOnly | num _ | lit _ _ | position | last | slash _ _ | dslash _ _ | root _
   | droot _ | paren _ | union _ _ | count _ | cmp _ _ _ | and _ _ | or _ _ | not _ =>
     simp only [nestedRev, Bool.false_eq_true, if_false, selectWithFocus, swfRev, predAxisReverse]
     exact focusFwd_eq h
@@ -778,6 +782,7 @@ theorem eval_eq_sem_aux (w : WF m a) : ∀ (e : Expr) (t : Ty) (f : Focus), ty e
   | parentAbbr => intro t f _ hf _; simp only [eval, sem]; rw [iterParent_eq w hf]
   | rootOnly => intro t f _ _ _; rfl
   | num k => intro t f _ _ _; rfl
+  | lit ng k => intro t f _ _ _; rfl
   | position => intro t f _ _ _; rfl
   | last => intro t f _ _ _; rfl
   | paren e ih =>
